@@ -27,6 +27,15 @@ def program_for(rng, tag):
                                  "(and 1 2 3)", "(case 2 ((1) 'a) ((2) 'b) (else 'c))"]))
     probes = ["shared-name", "(shared-proc)", "v", "(car '(1 2))", "(lib-value)", "(when #t 1 2)", "(cond (#f 1) (else 2 3))",
               "(unless #f 1 2)"]
+    if rng.random() < 0.6:
+        # operations that fail deep inside nested calls, many times, and nested evaluation that succeeds: whatever an
+        # instance's failures leave behind must not be visible to the other instance
+        extra.append("(define (deep-%s n) (if (= n 0) (car '()) (+ 1 (deep-%s (- n 1)))))" % (tag, tag))
+        extra.append("(define (count-%s n) (if (= n 0) 0 (+ 1 (count-%s (- n 1)))))" % (tag, tag))
+        for _ in range(rng.randint(6, 10)):
+            extra.append("(deep-%s %d)" % (tag, rng.randint(30, 45)))
+        extra.append("(count-%s 60)" % tag)
+        probes = probes + ["(count-%s 50)" % tag]
     out = []
     # imports belong to the beginning of a program
     if rng.random() < 0.8:
@@ -48,7 +57,7 @@ def lib_text(tag, k):
 
 def explore(ctx):
     h = common.hexs
-    n = 200 if ctx.quick else 6000
+    n = 500 if ctx.quick else 10000
     cases = []
     meta = []
     dist = {}
